@@ -156,6 +156,18 @@ private theorem fields_ok (text : Text) (path : Path) :
           · exact h2.2.2 kv hkv
 end
 
+/-- **the executed stage is an admissible stage outcome** (`StagesOk.execErrors` / `StagesOk.execData` DISCHARGED from the
+    executor model): whatever an admissible outcome tree makes the executor model produce, every error it registers is
+    located inside the text with strict-JSON extensions, and the data is strict JSON. -/
+theorem executed_stage_ok (text : Text) (root : FldList) (data : J) (errs : List Err)
+    (hx : execute root = some (data, errs)) (hok : treeOkFields text.length root = true) :
+    (∀ e ∈ errs, ErrOk text e) ∧ strict data = true := by
+  unfold execute at hx
+  simp at hx
+  obtain ⟨kvs, h1, rfl⟩ := hx
+  have hf := fields_ok text [] root kvs errs h1 hok
+  exact ⟨hf.1, strict_obj_of_kvs kvs hf.2.1 hf.2.2⟩
+
 /-- **the executed stage, inside the model.** A request that parsed, validated, selected an operation
     and coerced its variables, and whose execution the executor model completes from an admissible
     outcome tree (whatever resolvers raised, whatever nulls sit at non-null positions, at any depth,
